@@ -53,6 +53,17 @@ def cases(ctx):
     for k, t in enumerate(ctx.emitted("comp")):
         yield {"op": "transition", "t": t, "k": k, "src": "TLCSTEP"}
 
+    # two instances of one cell given the SAME connection-map object (inputs only): both must be wired as the map says
+    for j in range(6 if ctx.quick else 40):
+        r = ctx.rng("C06reuse", j)
+        bbd = {"type": "ff", "ins": ["clk", "d"], "outs": ["q"]}
+        nets = ["a", "b", "g"]
+        conns = [["d", [r.choice(nets)]], ["clk", [r.choice(nets)]]]
+        calls = [{"op": "add", "a": {"n": n, "t": "input", "fanin": [], "fanout": [], "output": False, "uid": False}} for n in ("a", "b")]
+        calls.append({"op": "add", "a": {"n": "g", "t": r.choice(["and", "xor"]), "fanin": ["a", "b"], "fanout": [], "output": True, "uid": False}})
+        calls.append({"op": "add_blackbox", "a": {"bb": bbd, "name": "u1", "conns": conns}})
+        calls.append({"op": "add_blackbox", "a": {"bb": bbd, "name": "u2", "conns": conns, "reuse_conns": True}})
+        yield {"op": "history", "init": None, "calls": calls, "src": "REUSE"}
     lib = child_library()
     n = 120 if ctx.quick else 2000
     for j in range(n):
@@ -142,6 +153,10 @@ def run_case(case, ctx):
         from . import C07
 
         return C07.run_transition(case, ctx)
+    if case["op"] == "history":
+        from . import C07
+
+        return C07.run_case(dict(case, op=None), ctx)
     r = ctx.rng("C06run", case.get("salt", 0), case["op"])
     evs = []
     if case["op"] == "add_subcircuit":
